@@ -106,8 +106,50 @@ def pentapy_available():
     return bool(bu._HAS_PENTAPY)
 
 
+XORDERS = ['sorted', 'reversed', 'rolled', 'shuffled']
+PER_POINT = ('weights', 'alpha', 'mask')
+
+
+def perm_of(kind, n, salt=0):
+    """The order in which the user supplies the points: user position k holds sorted point perm[k]."""
+    idx = np.arange(n)
+    if kind in (None, 'sorted'):
+        return None
+    if kind == 'reversed':
+        return idx[::-1].copy()
+    if kind == 'rolled':
+        return np.roll(idx, max(1, n // 3))
+    prng = np.random.default_rng(9000 + 17 * n + salt)
+    for _ in range(20):
+        perm = prng.permutation(n)
+        if n < 3 or not np.array_equal(perm[perm], idx):     # not an involution
+            return perm
+    return perm
+
+
+def unperm(a, perm):
+    out = np.empty_like(np.asarray(a))
+    out[perm] = a
+    return out
+
+
 def run_method(meth_name, y, bs, **kw):
     method = meth_name
+    perm = kw.pop('_perm', None)
+    if perm is not None and method != 'whittaker_smooth':
+        # the user supplies x, data and per-point arrays in the order `perm`; results are brought back to the
+        # sorted frame, in which the documented system is written
+        n = len(y)
+        kw2 = {k: (np.asarray(v)[perm] if k in PER_POINT and isinstance(v, np.ndarray) and v.shape == (n,) else v)
+               for k, v in kw.items()}
+        kw2['_x'] = np.arange(n, dtype=float)[perm]
+        base, par = run_method(meth_name, np.asarray(y, dtype=float)[perm], bs, **kw2)
+        par = dict(par)
+        for k in PER_POINT:
+            if k in par and np.shape(par[k]) == (n,):
+                par[k] = unperm(par[k], perm)
+        return unperm(base, perm), par
+    x_user = kw.pop('_x', None)
     from pybaselines import Baseline
     if method == 'whittaker_smooth':
         from pybaselines import utils
@@ -115,7 +157,8 @@ def run_method(meth_name, y, bs, **kw):
             warnings.simplefilter('ignore')
             return utils.whittaker_smooth(np.asarray(y, dtype=float), **kw), {}
     hist = kw.pop('_history', False)
-    f = Baseline(x_data=np.arange(len(y), dtype=float), check_finite=False, assume_sorted=True)
+    f = Baseline(x_data=np.arange(len(y), dtype=float) if x_user is None else x_user, check_finite=False,
+                 assume_sorted=x_user is None)
     f.banded_solver = bs
     with warnings.catch_warnings():
         warnings.simplefilter('ignore')
@@ -654,6 +697,8 @@ def run_oracle_case(case, K=2):
         kw['weights'] = relayout(w0, lay(case, 'w'))
     if case.get('history'):
         kw['_history'] = True
+    if case.get('xorder') not in (None, 'sorted'):
+        kw['_perm'] = perm_of(case['xorder'], N)
     y_in = relayout(y, lay(case, 'y'))
     out = []
 
@@ -738,6 +783,8 @@ def single_case(case):
     with Capture(hp) as cap:
         try:
             with np.errstate(all='ignore'):
+                if case.get('xorder') not in (None, 'sorted'):
+                    kw['_perm'] = perm_of(case['xorder'], N)
                 base, par = run_method(m, relayout(y, lay(case, 'y')), bs, **kw)
         except Exception:  # noqa
             return out
@@ -777,6 +824,10 @@ def single_case(case):
         check_call('system', calls[-1], [np.diag(w.astype(LD)), LD(lam) * P], w.astype(LD) * y.astype(LD), base)
     elif m in ('mpls', 'fabc', 'rubberband'):
         w = np.asarray(par['weights'] if 'weights' in par else par['mask'], dtype=float)
+        if isinstance(kw.get('weights'), np.ndarray) and (m == 'mpls' or (m == 'fabc' and kw.get('weights_as_mask'))):
+            # these hosts use the user's weights as they are: point i keeps weight i as supplied
+            if not np.array_equal(w, np.asarray(kw['weights'], dtype=float)):
+                out.append(('system:user-weights', 'the weights reported/used are not the user weights of the same data points'))
         check_call('system', calls[-1], [np.diag(w.astype(LD)), LD(lam) * P], w.astype(LD) * y.astype(LD), base)
     elif m == 'peak_filling':
         check_call('smooth', calls[0], [eye, LD(lam) * P], y.astype(LD), None)
@@ -956,8 +1007,30 @@ class Capture2D:
 def run_method2d(meth_name, y2, **kw):
     from pybaselines import Baseline2D
     M, N = y2.shape
+    perms = kw.pop('_perm', None)
+    if perms is not None and (perms[0] is not None or perms[1] is not None):
+        pr = np.arange(M) if perms[0] is None else perms[0]
+        pc = np.arange(N) if perms[1] is None else perms[1]
+        kw2 = {k: (np.asarray(v)[pr][:, pc] if k in PER_POINT and isinstance(v, np.ndarray) and v.shape == (M, N) else v)
+               for k, v in kw.items()}
+        kw2['_xz'] = (None if perms[0] is None else np.arange(M, dtype=float)[pr],
+                      None if perms[1] is None else np.arange(N, dtype=float)[pc])
+        base, par = run_method2d(meth_name, np.asarray(y2, dtype=float)[pr][:, pc], **kw2)
+        par = dict(par)
+
+        def back(a):
+            out = np.empty_like(np.asarray(a))
+            out[np.ix_(pr, pc)] = a
+            return out
+        for k in PER_POINT:
+            if k in par and np.shape(par[k]) == (M, N):
+                par[k] = back(par[k])
+        return back(base), par
+    xz = kw.pop('_xz', None)
     hist = kw.pop('_history', False)
-    f = Baseline2D(np.arange(M, dtype=float), np.arange(N, dtype=float), check_finite=False, assume_sorted=True)
+    xs = np.arange(M, dtype=float) if xz is None or xz[0] is None else xz[0]
+    zs = np.arange(N, dtype=float) if xz is None or xz[1] is None else xz[1]
+    f = Baseline2D(xs, zs, check_finite=False, assume_sorted=xz is None)
     if meth_name not in NO_EIGENS_ARG:
         kw['num_eigens'] = None
     with warnings.catch_warnings():
@@ -1196,6 +1269,8 @@ def oracle2d_case(case, K=2):
     y_in = relayout(y.reshape(M, N), lay(case, 'y'))
     if case.get('history'):
         kw['_history'] = True
+    if case.get('xorder'):
+        kw['_perm'] = (perm_of(case['xorder'][0], M, 1), perm_of(case['xorder'][1], N, 2))
     out = []
 
     def call(**more):
@@ -1342,9 +1417,15 @@ def eigen_case(case):
     y = np.array(case['y'], dtype=float).reshape(M, N)
     w = np.array(case['w0'], dtype=float).reshape(M, N)
     from pybaselines import Baseline2D
-    f = Baseline2D(np.arange(M, dtype=float), np.arange(N, dtype=float), check_finite=False, assume_sorted=True)
-    kw = dict(lam=lam, diff_order=d, weights=relayout(w, lay(case, 'w')), max_iter=0, tol=np.inf)
-    y_in = relayout(y, lay(case, 'y'))
+    xo = case.get('xorder') or [None, None]
+    pr, pc = perm_of(xo[0], M, 1), perm_of(xo[1], N, 2)
+    pr_ = np.arange(M) if pr is None else pr
+    pc_ = np.arange(N) if pc is None else pc
+    permuted = pr is not None or pc is not None
+    f = Baseline2D(np.arange(M, dtype=float)[pr_], np.arange(N, dtype=float)[pc_], check_finite=False,
+                   assume_sorted=not permuted)
+    kw = dict(lam=lam, diff_order=d, weights=relayout(w[pr_][:, pc_], lay(case, 'w')), max_iter=0, tol=np.inf)
+    y_in = relayout(y[pr_][:, pc_], lay(case, 'y'))
     if not case.get('default_eigens'):
         kw['num_eigens'] = g
     import pybaselines.two_d._whittaker_utils as wu
@@ -1365,6 +1446,10 @@ def eigen_case(case):
         return None
     finally:
         wu.WhittakerSystem2D.solve = orig_solve
+    if permuted:                                   # back to the sorted frame of the documented system
+        tmp = np.empty_like(base)
+        tmp[np.ix_(pr_, pc_)] = base
+        base = tmp
     if not np.all(np.isfinite(base)):
         return None
     Ur, Sr, vr = indep_basis(M, d[0], g[0])
@@ -1535,6 +1620,66 @@ def enumerated_grid(ctx):
             ctx.case(('grid1d', method, ly, lw), nontrivial=len(checks) > 0, kind=f'grid1d:layout:{ly}/{lw}')
             found += report_checks(ctx, f'residual:{method}', f'{method} (N={N}, diff_order={d}, data layout {ly}, weights layout {lw}, '
                                    f'scale {[1.0, 1e-100, 1e100][li]:g}, history={case["history"]})', checks, case)
+    # order of the supplied points: the documented system is stated for the data as supplied, so user weights /
+    # alpha belong to the data points they were supplied with, whatever the order of x (reversal is an involution
+    # and hides inverse-permutation mistakes; rolled and shuffled orders do not)
+    for mi, method in enumerate(ALL_1D):
+        for xi, xo in enumerate(XORDERS[1:]):
+            N, d = [(11, 2), (14, 3), (17, 2)][(mi + xi) % 3]
+            nrng = np.random.default_rng(700 + 13 * mi + xi)
+            y = make_y1(nrng, N)
+            case = {'kind': 'oracle', 'method': method, 'N': N, 'd': d, 'lam': 30.0, 'bs': 1 + (mi + xi) % 4, 'hp': xi == 0,
+                    'extra': {'iasls': 0.01, 'drpls': 0.5}.get(method, 0), 'y': [float(v) for v in y],
+                    'w0': [float(v) for v in nrng.uniform(0.1, 1.0, N)],
+                    'a0': [float(v) for v in nrng.uniform(0.1, 1.0, N)] if method == 'aspls' else None,
+                    'mode': 'conv0' if method == 'brpls' else 'traj', 'xorder': xo}
+            checks = run_oracle_case(case)
+            ctx.case(('grid1d-order', method, xo), nontrivial=len(checks) > 0, kind=f'grid1d:xorder:{xo}')
+            found += report_checks(ctx, f'residual:{method}', f'{method} (N={N}, diff_order={d}, x supplied {xo}, user weights'
+                                   f'{" and alpha" if method == "aspls" else ""})', checks, case)
+    for mi, method in enumerate(['mpls', 'fabc']):
+        for xi, xo in enumerate(XORDERS):
+            N = 40 + 3 * xi
+            nrng = np.random.default_rng(800 + 13 * mi + xi)
+            y = make_y1(nrng, N)
+            kw = {'lam': 200.0, 'diff_order': 2, 'weights': [float(v) for v in nrng.uniform(0.1, 2.0, N)]}
+            kw.update({'half_window': 3} if method == 'mpls' else {'weights_as_mask': True})
+            case = {'kind': 'single', 'method': method, 'N': N, 'd': 2, 'lam': 200.0, 'bs': 1 + xi, 'hp': False,
+                    'y': [float(v) for v in y], 'kw': kw, 'xorder': xo}
+            res = single_case(case)
+            ctx.case(('grid-single-order', method, xo), nontrivial=len(res) > 0, kind=f'grid1d:{method}:xorder:{xo}')
+            for what, msg in res:
+                if msg is not None:
+                    found += 1
+                    ctx.fail(f'single:{method}:{what}', f'{method} (N={N}, x supplied {xo}, user weights): {msg}', case)
+    combos = [('rolled', None), (None, 'shuffled'), ('shuffled', 'rolled'), ('reversed', 'reversed')]
+    for mi, method in enumerate(ALL_2D):
+        for ci, xo in enumerate(combos):
+            M, N = [(5, 7), (7, 5), (6, 8)][(mi + ci) % 3]
+            d = [2, 2] if method in ('iasls', 'drpls') else [[1, 2], [2, 1], [2, 2]][(mi + ci) % 3]
+            y, w, al = fixed_data2d(M, N, 10 + ci)
+            case = {'kind': 'oracle2d', 'method': method, 'M': M, 'N': N, 'd': d, 'lam': [10.0, 300.0],
+                    'extra': {'iasls': 0.01, 'drpls': 0.5}.get(method, 0),
+                    'y': [float(v) for v in y.ravel()], 'w0': [float(v) for v in w.ravel()],
+                    'a0': [float(v) for v in al.ravel()] if method == 'aspls' else None,
+                    'mode': 'conv0' if method == 'brpls' else 'traj', 'xorder': list(xo)}
+            checks = oracle2d_case(case)
+            ctx.case(('grid2d-order', method, xo), nontrivial=len(checks) > 0, kind=f'grid2d:xorder:{xo[0]}/{xo[1]}')
+            found += report_checks(ctx, f'residual2d:{method}', f'2-D {method} ({M}x{N}, diff_order={tuple(d)}, num_eigens=None, '
+                                   f'x supplied {xo[0] or "sorted"}, z supplied {xo[1] or "sorted"}, user weights)', checks, case, 'MN')
+    for mi, method in enumerate(EIGEN_2D):
+        for ci, xo in enumerate(combos[:3]):
+            M, N = [(14, 17), (16, 12)][(mi + ci) % 2]
+            y, w, _ = fixed_data2d(M, N, 20 + ci)
+            case = {'kind': 'eigen2d', 'method': method, 'M': M, 'N': N, 'd': [2, 1], 'lam': [100.0, 1.0e4],
+                    'num_eigens': [5, 4], 'default_eigens': False, 'y': [float(v) for v in y.ravel()],
+                    'w0': [float(v) for v in w.ravel()], 'xorder': list(xo)}
+            res = eigen_case(case)
+            ctx.case(('grid-eigen2d-order', method, xo), nontrivial=res is not None, kind=f'grid2d-eigen:xorder:{xo[0]}/{xo[1]}')
+            if res is not None and not (res[0] <= 1.0):
+                found += 1
+                ctx.fail(f'eigen2d:{method}:grid', f'2-D {method} ({M}x{N}, x supplied {xo[0] or "sorted"}, z supplied {xo[1] or "sorted"}, '
+                         f'{res[1]}): the returned baseline does not solve the documented reduced system (ratio {res[0]:.3g})', case)
     for li, (ly, lw) in enumerate(LAYOUT_PAIRS_1D):
         nrng = np.random.default_rng(77 + li)
         N, d = 12 + li, 1 + li
@@ -1597,7 +1742,7 @@ def run(ctx):
         'reweighting rules and the loop skeleton are C09/C01; here the loop is lib/Loop.v with abstract reweight/diff/below',
     ]
     ctx.gate()
-    ctx.translate(['GenBands', 'GenC06Vec'])
+    ctx.translate(['GenBands', 'GenC06Vec', 'GenC06Order'])
     ok = ctx.build_props()
     ncap = correspondence(ctx)
     ncap2 = correspondence2d(ctx)
@@ -1623,7 +1768,7 @@ def run(ctx):
              'solver residual, returned array = solver output; their right-hand sides are not re-derived); '
              '2-D: num_eigens=None path of all ten methods (theorems, exact spsolve-input tie on small grids, residual oracle); '
              '2-D eigendecomposition path (num_eigens set): oracle only (reduced-system backward error, span, lam*Sigma term vs an independent SVD-based eigensolver, long axes); '
-             'fixed enumerated grid first (every method x memory layouts F/T/neg/negF/slice/sliceF of data, weights, alpha on both 2-D paths and 1-D; fitter objects with a history of rejected calls; data scaled by 1e-100 / 1e100), random layouts on top; '
+             'fixed enumerated grid first (every method x memory layouts F/T/neg/negF/slice/sliceF of data, weights, alpha on both 2-D paths and 1-D; fitter objects with a history of rejected calls; data scaled by 1e-100 / 1e100), random layouts on top; x / z supplied sorted, reversed, rolled and shuffled with user weights (and alpha) for every Whittaker host, certificate in the frame of the supplied data; '
              'NOT covered: non-integer eta in the Coq tie (eta=1/4,1/2 only through the oracle), '
              'passes >= 2 of methods other than asls/iasls in the Coq tie (non-dyadic weights; covered by the oracle)')
 
